@@ -364,3 +364,184 @@ func deadConstEdge(b *ssa.BasicBlock, idx int) bool {
 	isTrue := c.Value.String() == "true"
 	return (idx == 0 && !isTrue) || (idx == 1 && isTrue)
 }
+
+// PathFact summarises one class of entry→target paths: which of the marked
+// edge classes were taken and which label was stored last.
+type PathFact struct {
+	Took  uint32 // bit i set: an edge of class i was taken
+	Label string // last label stored ("" = none)
+}
+
+// LastLabelAt explores all paths from fn's entry to target and returns the
+// distinct (taken edge classes, last stored label) facts with which target is
+// reached. label(ins) reports whether ins stores a label and which.
+func LastLabelAt(fn *ssa.Function, target ssa.Instruction, classes [][]Edge, label func(ssa.Instruction) (string, bool)) []PathFact {
+	type state struct {
+		b    *ssa.BasicBlock
+		fact PathFact
+	}
+	classOf := map[Edge]int{}
+	for i, es := range classes {
+		for _, e := range es {
+			classOf[e] = i
+		}
+	}
+	seen := map[state]bool{}
+	out := map[PathFact]bool{}
+	var walk func(s state)
+	walk = func(s state) {
+		if seen[s] {
+			return
+		}
+		seen[s] = true
+		f := s.fact
+		for _, ins := range s.b.Instrs {
+			if ins == target {
+				out[f] = true
+				return
+			}
+			if l, ok := label(ins); ok {
+				f.Label = l
+			}
+		}
+		for idx, succ := range s.b.Succs {
+			if deadConstEdge(s.b, idx) {
+				continue
+			}
+			nf := f
+			if c, ok := classOf[Edge{s.b, idx}]; ok {
+				nf.Took |= 1 << uint(c)
+			}
+			walk(state{succ, nf})
+		}
+	}
+	if len(fn.Blocks) > 0 {
+		walk(state{fn.Blocks[0], PathFact{}})
+	}
+	var res []PathFact
+	for f := range out {
+		res = append(res, f)
+	}
+	sort.Slice(res, func(i, j int) bool {
+		if res[i].Took != res[j].Took {
+			return res[i].Took < res[j].Took
+		}
+		return res[i].Label < res[j].Label
+	})
+	return res
+}
+
+// RetFact describes one class of paths reaching a Return: the last of the
+// tracked calls executed on the path and the returned values with phis and
+// defer-spill cells resolved along that path.
+type RetFact struct {
+	Ret  *ssa.Return
+	Last ssa.CallInstruction // nil if none of the tracked calls was executed
+	Vals []ssa.Value
+}
+
+// ReturnFacts walks all paths of fn (each (block, last call, incoming edge)
+// state once) and reports, for every Return reached, which tracked call was
+// executed last and what the results resolve to on that path.
+func ReturnFacts(fn *ssa.Function, tracked []ssa.CallInstruction) []RetFact {
+	isTracked := map[ssa.Instruction]ssa.CallInstruction{}
+	for _, c := range tracked {
+		isTracked[c] = c
+	}
+	type key struct {
+		b    *ssa.BasicBlock
+		last ssa.CallInstruction
+		pred *ssa.BasicBlock
+	}
+	seen := map[key]bool{}
+	var out []RetFact
+	var walk func(b, pred *ssa.BasicBlock, last ssa.CallInstruction, env map[ssa.Value]ssa.Value)
+	resolve := func(v ssa.Value, env map[ssa.Value]ssa.Value) ssa.Value {
+		for i := 0; i < 16; i++ {
+			if r, ok := env[v]; ok && r != v {
+				v = r
+				continue
+			}
+			switch x := v.(type) {
+			case *ssa.ChangeType:
+				v = x.X
+				continue
+			case *ssa.ChangeInterface:
+				v = x.X
+				continue
+			}
+			break
+		}
+		return v
+	}
+	walk = func(b, pred *ssa.BasicBlock, last ssa.CallInstruction, env map[ssa.Value]ssa.Value) {
+		k := key{b, last, pred}
+		if seen[k] {
+			return
+		}
+		seen[k] = true
+		e2 := map[ssa.Value]ssa.Value{}
+		for a, v := range env {
+			e2[a] = v
+		}
+		env = e2
+		// phis are evaluated simultaneously from the incoming edge
+		if pred != nil {
+			idx := -1
+			for i, p := range b.Preds {
+				if p == pred {
+					idx = i
+				}
+			}
+			vals := map[*ssa.Phi]ssa.Value{}
+			for _, ins := range b.Instrs {
+				phi, ok := ins.(*ssa.Phi)
+				if !ok {
+					break
+				}
+				if idx >= 0 && idx < len(phi.Edges) {
+					vals[phi] = resolve(phi.Edges[idx], env)
+				}
+			}
+			for p, v := range vals {
+				env[p] = v
+			}
+		}
+		for _, ins := range b.Instrs {
+			if c, ok := isTracked[ins]; ok {
+				last = c
+			}
+			switch x := ins.(type) {
+			case *ssa.Store:
+				if a, ok := x.Addr.(*ssa.Alloc); ok {
+					env[a] = resolve(x.Val, env) // cell content on this path
+				}
+			case *ssa.UnOp:
+				if x.Op == token.MUL {
+					if a, ok := x.X.(*ssa.Alloc); ok {
+						if v, has := env[a]; has {
+							env[x] = v
+						}
+					}
+				}
+			case *ssa.Return:
+				f := RetFact{Ret: x, Last: last}
+				for _, r := range x.Results {
+					f.Vals = append(f.Vals, resolve(r, env))
+				}
+				out = append(out, f)
+				return
+			}
+		}
+		for idx, s := range b.Succs {
+			if deadConstEdge(b, idx) {
+				continue
+			}
+			walk(s, b, last, env)
+		}
+	}
+	if len(fn.Blocks) > 0 {
+		walk(fn.Blocks[0], nil, nil, map[ssa.Value]ssa.Value{})
+	}
+	return out
+}
